@@ -14,7 +14,8 @@ BUDGET = {"quick": (1600, 150), "thorough": (60000, 1500)}
 RULE = ("seeded measurement (Images / DiffractionPatterns / PolarMeasurements / RealSpaceLineProfiles; 0-2 ensemble axes; constant or "
         "random non-negative signal) x dose (total_dose scalar, dose_per_area for images) x samples 1-3 x explicit seed x chunking of "
         "the ensemble axes (single block, one member per block, uneven). Clauses: counts are non-negative whole numbers; same seed twice "
-        "-> identical; lazy computed by SimScheduler with any chunking / block order = eager; on constant-signal ensembles no two "
+        "-> identical; lazy computed by SimScheduler with any chunking / block order = eager; the same seeded lazy object computed a second "
+        "time, and a fresh one under another (multi-worker, interleaved) schedule, give identical counts; on constant-signal ensembles no two "
         "members share a noise field and their correlation is below 8 sigma of its null distribution; total counts within 8 sigma of "
         "dose x signal. distinct = (scenario hash, schedule hash); non-trivial = >= 2 members or >= 2 blocks")
 ASSUMPTIONS = ["statistical bounds at 8 sigma (false-alarm probability < 1e-14 per test)",
@@ -163,13 +164,52 @@ def run_one(run):
     # ---- (c) lazy = eager whatever the chunking -----------------------------------------------------------------------------
     sim = run.add_sim(Sim(ch, draw_sim_config(ch, light=True)))
 
+    keep = {}
+
     def lazy_run():
+        import dask
+
         ml, _ = make_measurement(sc, lazy=True)
         with sim:
-            return sim.compute(noisy(sc, ml))
+            obj = noisy(sc, ml)
+            keep["obj"] = obj
+            arr = dask.compute(obj.array, optimize_graph=sim.optimize_graph)[0]
+        out = obj.copy()
+        out._array = arr
+        return out
 
     lz = guard(lazy_run, "lazy")
     la = None
+    # ---- (f) a seeded lazy result is a function of the seed: computing the same lazy object again, or a fresh one under
+    #          another schedule (several workers, finely interleaved), gives the identical counts ------------------------------
+    if lz is not None:
+        import dask
+
+        first = oracle.to_numpy(lz.array)
+        sim2 = run.add_sim(Sim(ch, draw_sim_config(ch, light=True, allow_recompute=False, force_threads=nblocks >= 2)))
+
+        def again():
+            with sim2:
+                return dask.compute(keep["obj"].array, optimize_graph=sim2.optimize_graph)[0]
+
+        second = guard(again, "lazy-recompute")
+        if second is not None and not np.array_equal(oracle.to_numpy(second), first):
+            run.violate("lazy-reproducible", sig(sc, "values", "lazy", {"how": "same-object-recomputed"}),
+                        f"the same seeded lazy result computed twice differs in {float((oracle.to_numpy(second) != first).mean()):.0%} of the pixels "
+                        f"(chunks {sc['chunks']}, second schedule {sim2.describe()})")
+        sim3 = run.add_sim(Sim(ch, draw_sim_config(ch, light=True, allow_recompute=False, force_threads=nblocks >= 2)))
+
+        def fresh():
+            ml, _ = make_measurement(sc, lazy=True)
+            with sim3:
+                return dask.compute(noisy(sc, ml).array, optimize_graph=sim3.optimize_graph)[0]
+
+        third = guard(fresh, "lazy-other-schedule")
+        if third is not None and not np.array_equal(oracle.to_numpy(third), first):
+            run.violate("lazy-reproducible", sig(sc, "values", "lazy", {"how": "other-schedule"}),
+                        f"a fresh seeded lazy result under another schedule differs in {float((oracle.to_numpy(third) != first).mean()):.0%} of the pixels "
+                        f"(chunks {sc['chunks']}, schedules {sim.describe()} vs {sim3.describe()})")
+        run.note("reach_lazy_reproducibility")
     if lz is not None:
         la = oracle.to_numpy(lz.array)
         if la.shape != a1.shape:
